@@ -101,6 +101,8 @@ def long_step(rng, idx):
     """micro systems of 64 and more unknowns (maximal ranks on [4,4,4], [2,4,4,2], [2]*6) with long steps (h ||H|| = 20..100): the
     local propagators are exponentials of large arguments - the statement holds for all step sizes"""
     dims = [[4, 4, 4], [2, 4, 4, 2], [2, 2, 2, 2, 2, 2], [3, 4, 4]][int(rng.integers(0, 4))]
+    if idx % 40 == 27:  # micro systems of 256-512 unknowns (state spaces of 256 at maximal ranks)
+        dims = [[2] * 8, [4, 4, 4, 4], [2, 4, 4, 4, 2]][int(rng.integers(0, 3))]
     cplx = bool(rng.integers(0, 2))
     with probe.oracle():
         H = gen.hermitian_tt(rng, dims, int(rng.integers(1, 3)), cplx)
@@ -112,7 +114,7 @@ def w_tdvp1(ctx, rng, idx):
     dims, H, cplx = problem(rng)
     kind = ['maximal', 'rank1', 'intermediate'][int(rng.integers(0, 3))]
     hl = None
-    if idx % 40 == 7:
+    if idx % 40 in (7, 27):
         dims, H, cplx, hl = long_step(rng, idx)
         kind = 'maximal'
     x0 = state(rng, dims, kind, cplx or rng.random() < 0.5)
